@@ -142,6 +142,10 @@ pub enum Op {
     Exit,
     /// call a `#[trace]` function under the current context
     TraceFn { kind: u8 },
+    /// text handed to the decoders (`decode_w3c_traceparent`, `TraceId/SpanId::from_str`): a
+    /// canonical header with `width` bytes at offset `at` replaced by one character of that many
+    /// bytes (the length stays 55), or cut at `at`, or with a character inserted
+    DecodeText { kind: u8, at: u8, width: u8 },
     /// `inner` is executed from a destructor while the thread unwinds from a panic that has
     /// nothing to do with tracing (`std::thread::panicking()` is true during the call); the panic
     /// is caught right outside. What the operation means is unchanged.
@@ -215,6 +219,7 @@ pub enum K {
     Exit,
     TraceFn,
     WhilePanicking,
+    DecodeText,
     N_,
 }
 
@@ -514,6 +519,7 @@ pub fn op_strategy(p: &Profile) -> BoxedStrategy<Op> {
     add(K::Churn, prop_oneof![3 => 1u8..8, 1 => 60u8..72, 1 => 128u8..135].prop_map(|k| Op::Churn { k }).boxed());
     add(K::Exit, Just(Op::Exit).boxed());
     add(K::TraceFn, (0u8..4).prop_map(|kind| Op::TraceFn { kind }).boxed());
+    add(K::DecodeText, (0u8..4, 0u8..56, 1u8..5).prop_map(|(kind, at, width)| Op::DecodeText { kind, at, width }).boxed());
     let wp = p.w[K::WhilePanicking as usize];
     if wp > 0 && !inner.is_empty() {
         v.push((wp, Union::new_weighted(inner).prop_map(|o| Op::WhilePanicking { inner: Box::new(o) }).boxed()));
